@@ -104,6 +104,7 @@ type Explorer struct {
 	stop    bool
 	res     *Result
 	nviol   map[string]int
+	violPaths int
 	pathCnt int64
 }
 
@@ -1103,6 +1104,13 @@ func (in *Interp) recordViolation(kind, msg string, m map[string]uint64, knownID
 	}
 	key := kind + ":" + msg
 	ex.nviol[key]++
+	// Enough is enough: after a few hundred violating paths the verdict cannot
+	// change any more, and a broken tree can multiply paths without bound.
+	ex.violPaths++
+	if ex.violPaths >= 300 && !ex.stop {
+		ex.stop = true
+		ex.cond.Broadcast()
+	}
 	max := ex.cfg.MaxViolations
 	if max == 0 {
 		max = 3
